@@ -253,7 +253,9 @@ func changesWithout(changes []*FileChange, fpath string) []*FileChange {
 }
 
 func getChangeByPath(changes []*FileChange, fpath string) *FileChange {
-	for _, c := range changes {
+	// A path can be deleted and later created again by another commit,
+	// the most recent change is the one that describes what's at that path now.
+	for _, c := range slices.Backward(changes) {
 		if c.Path.After.Name == fpath {
 			return c
 		}
